@@ -18,7 +18,7 @@ from .annotated_types import MaxLen, MinLen
 from .annotations import type_from_value
 from .error_code import ErrorCode
 from .extensions import assert_type, reveal_locals, reveal_type
-from .format_strings import parse_format_string
+from .format_strings import ReplacementField, parse_format_string
 from .predicates import IsAssignablePredicate
 from .safe import hasattr_static, is_union, safe_isinstance, safe_issubclass
 from .signature import (
@@ -1436,6 +1436,26 @@ def _str_format_impl(ctx: CallContext) -> Value:
         _, message = errors[0]
         ctx.show_error(message, error_code=ErrorCode.incompatible_call)
         return TypedValue(str)
+    for top_level in parsed.children:
+        if not isinstance(top_level, ReplacementField) or not top_level.format_spec:
+            continue
+        for nested in top_level.format_spec.children:
+            # str.format() expands replacement fields inside a format spec, but not
+            # inside the format spec of such a nested field
+            if (
+                isinstance(nested, ReplacementField)
+                and nested.format_spec is not None
+                and any(
+                    isinstance(child, ReplacementField)
+                    for child in nested.format_spec.children
+                )
+            ):
+                ctx.show_error(
+                    "Replacement fields in a format spec cannot be nested further"
+                    " (max string recursion exceeded)",
+                    error_code=ErrorCode.incompatible_call,
+                )
+                return TypedValue(str)
     for field in parsed.iter_replacement_fields():
         # TODO validate conversion specifiers, attributes, etc.
         if field.arg_name is None:
